@@ -744,6 +744,15 @@ def run_bayer(case, seed, R):
     ret = R.call(bayer.composite_bayer, x, x, x, x, cfa=cfa, output=buf)
     R.expect(ret is buf, f'composite:{cfa}:output', 'output= array is not the returned array')
     R.expect_equal(buf, x0, f'composite:{cfa}', 'compositing four copies of a mosaic must return it')
+    # in-place compositing: output= is one of the four colour planes themselves (each plane keeps its own native sites, so every choice
+    # is well defined: the result has each plane's values at that plane's sites)
+    pl = [x0 + 1000.0 * (k + 1) for k in range(4)]          # four different full-resolution planes
+    sep = R.call(bayer.composite_bayer, *[p_.copy() for p_ in pl], cfa=cfa, hygiene=False)
+    if sep is not FAILED:
+        for k, pname in enumerate(('r', 'g1', 'g2', 'b')):
+            args = [p_.copy() for p_ in pl]
+            ret = R.call(bayer.composite_bayer, *args, cfa=cfa, output=args[k], hygiene=False, sig=f'composite:{cfa}:output-aliases-plane:exception')
+            R.expect_equal(ret, sep, f'composite:{cfa}:output-aliases-{pname}', f'composite_bayer(..., output=<the {pname} plane>) differs from compositing into a fresh array')
     R.nontrivial(True)
     R.outcome(cfa)
 
